@@ -487,3 +487,51 @@ example : (ravelC 2 2 (fun r j => (r, j)))[0 * 2 + 1]? = some (0, 1) ∧ (ravelC
   decide
 
 end DtsVerif.C01
+
+namespace DtsVerif.C02
+open DtsVerif.Calib DtsVerif.Calib.Input DtsVerif.Design DtsVerif.Py
+
+theorem ind_eq_b2r (b : Bool) : ind b = b2r b := rfl
+
+/-- EQ1 (`F_h − F_t`): the coefficient the code stores for the forward loss of splice `a` — `−[h ≥ ix0] + [t ≥ ix0]` with `ix0` the
+builders' splice rule on the whole fibre — is the model's `[t downstream] − [h downstream]` -/
+theorem design_eq1_coefficient (inp : Input) (a h t : Nat) :
+    -(ind (decide (h ≥ taIx0 inp.x (inp.trans.getD a 0)))) + ind (decide (t ≥ taIx0 inp.x (inp.trans.getD a 0)))
+      = b2r (inp.downAll a t) - b2r (inp.downAll a h) := by
+  unfold downAll
+  rw [ind_eq_b2r, ind_eq_b2r, Rat.add_comm, ← Rat.sub_eq_add_neg]
+
+/-- EQ2 (`B_h − B_t`): `−[h < ix0] + [t < ix0]` is the model's `[t upstream] − [h upstream]` -/
+theorem design_eq2_coefficient (inp : Input) (a h t : Nat) :
+    -(ind (decide (h < taIx0 inp.x (inp.trans.getD a 0)))) + ind (decide (t < taIx0 inp.x (inp.trans.getD a 0)))
+      = b2r (!inp.downAll a t) - b2r (!inp.downAll a h) := by
+  unfold downAll
+  have hneg : ∀ i k : Nat, (!decide (i ≥ k)) = decide (i < k) := by
+    intro i k; by_cases hik : i < k <;> simp [hik] <;> omega
+  rw [hneg, hneg, ind_eq_b2r, ind_eq_b2r, Rat.add_comm, ← Rat.sub_eq_add_neg]
+
+/-- EQ3 (`(B_i − F_i)/2` at a matched location outside the reference sections): exactly one of the two stored values is non-zero —
+`+1/2` at the forward loss when the location is downstream of the splice, `−1/2` at the backward loss when it is upstream — as in
+the model's row -/
+theorem design_eq3_coefficient (inp : Input) (a i : Nat) :
+    (inp.downAll a i = true →
+      ind (decide (i ≥ taIx0 inp.x (inp.trans.getD a 0))) / 2 = (1 / 2 : Rat) ∧
+      -(ind (decide (i < taIx0 inp.x (inp.trans.getD a 0)))) / 2 = (0 : Rat)) ∧
+    (inp.downAll a i = false →
+      ind (decide (i ≥ taIx0 inp.x (inp.trans.getD a 0))) / 2 = (0 : Rat) ∧
+      -(ind (decide (i < taIx0 inp.x (inp.trans.getD a 0)))) / 2 = (-1 / 2 : Rat)) := by
+  unfold downAll
+  generalize taIx0 inp.x (inp.trans.getD a 0) = k
+  constructor
+  · intro h
+    have h1 : k ≤ i := by simpa using h
+    have h2 : ¬ (i < k) := by omega
+    simp only [ind, ge_iff_le, h1, h2, decide_true, decide_false, if_true, Bool.false_eq_true, if_false]
+    constructor <;> decide +kernel
+  · intro h
+    have h1 : ¬ (k ≤ i) := by simpa using h
+    have h2 : i < k := by omega
+    simp only [ind, ge_iff_le, h1, h2, decide_true, decide_false, if_true, Bool.false_eq_true, if_false]
+    constructor <;> decide +kernel
+
+end DtsVerif.C02
